@@ -168,9 +168,19 @@ def session_worker(job):
             return mibagent.answer(mib, req, agent, 5)
         return agent.discovery_or(req, f)
     agent = rigp.Agent(handler, users=[cfg.user_keys()]).start()
-    for rps in job["rps"]:
+    for k, rps in enumerate(job["rps"]):
         d = int(NS / rps)
-        drv = driver.Driver(cfg, agent, timeout=2.0, limit_rps=rps).create()
+        # three documented ways to make a session rate-limited; an explicit policer overrides limit_rps
+        how = ["limit_rps", "policer+limit_rps", "policer"][(k + job["seed"]) % 3]
+
+        def rate_kw():
+            if how == "limit_rps":
+                return {"limit_rps": rps}
+            if how == "policer":
+                return {"policer": policer.RPSPolicer(rps)}
+            return {"policer": policer.RPSPolicer(rps), "limit_rps": rps * rng.choice([20, 1000])}
+        res["ops"]["how:" + how] = 1
+        drv = driver.Driver(cfg, agent, timeout=2.0, **rate_kw()).create()
         # refresh()/open is not rate-limited by the statement's API list; start counting after it
         drv.call("open")
         arrivals.clear()
@@ -196,8 +206,8 @@ def session_worker(job):
                 for i in range(0, n - k):
                     if not rel[i + k] - rel[i] > (k - 1) * d - (k + 1):
                         if len(res["bad"]) < 20:
-                            res["bad"].append({"sig": "arrivals:%s%s" % (cfg.client, label), "msg": "[%s rps=%r%s] agent saw requests %d..%d within %d ns; %d intervals of %d ns are required" % (
-                                cfg.key(), rps, label, i, i + k, rel[i + k] - rel[i], k - 1, d)})
+                            res["bad"].append({"sig": "arrivals:%s%s" % (cfg.client, label), "msg": "[%s rps=%r via %s%s] agent saw requests %d..%d within %d ns; %d intervals of %d ns are required" % (
+                                cfg.key(), rps, how, label, i, i + k, rel[i + k] - rel[i], k - 1, d)})
                         return
         res["requests"] += len(arrivals)
         res["sessions"] += 1
@@ -205,7 +215,7 @@ def session_worker(job):
         # a phase with a silent agent: every request times out (real 30 ms); the virtual clock only moves by
         # what the policer sleeps - requests must still be spaced by the interval
         drv.close()
-        drv = driver.Driver(cfg, agent, timeout=0.03, limit_rps=rps).create()
+        drv = driver.Driver(cfg, agent, timeout=0.03, **rate_kw()).create()
         drv.call("open")
         arrivals.clear()
         mute["on"] = True
